@@ -176,6 +176,10 @@ pub struct World {
     pub horizon_hit: bool,
     /// O_NONBLOCK per model descriptor (from socket()/accept4() flags, fcntl F_SETFL)
     pub nb: Vec<bool>,
+    /// per descriptor: the readiness (POLLIN / POLLOUT) the last would-block answer makes the caller wait for, 0 = none
+    pub need: Vec<i16>,
+    /// a ppoll whose requested events are not what the blocked operation needs: (operation, requested, needed)
+    pub wrong_events: Option<(String, i16, i16)>,
     /// the application is stuck for ever: in a blocking-mode call sleeping in the kernel, or in a ppoll without time-out
     pub stuck: Option<Stuck>,
     /// once stuck the execution is wound down: every further call answers EBADF
@@ -226,6 +230,8 @@ impl World {
             ncalls: 0,
             horizon_hit: false,
             nb: Vec::with_capacity(4),
+            need: Vec::with_capacity(4),
+            wrong_events: None,
             stuck: None,
             halted: false,
             kernel_sleeps: 0,
@@ -279,6 +285,23 @@ impl World {
         self.do_peer(a);
     }
 
+    /// the call on descriptor `i` answered "would block": the readiness its caller has to wait for
+    fn note_need(&mut self, i: usize, ret: i64, ev: i16) {
+        let blocked = ret == neg(libc::EAGAIN) || ret == neg(libc::EINPROGRESS) || ret == neg(libc::EALREADY);
+        if i < self.need.len() {
+            self.need[i] = if blocked { ev } else { 0 };
+        }
+    }
+
+    /// inbound bytes the application has not read (a greeting the peer sent earlier)
+    pub fn prefill_rx(&mut self, fd: i32, n: usize) {
+        if let Some(Sock::Stream(ci)) = self.sock_of(fd).cloned() {
+            for k in 0..n {
+                self.conns[ci].p2a.push_back(b'0' + k as u8);
+            }
+        }
+    }
+
     pub fn set_op(&mut self, op: &str, must_return: bool) {
         self.cur_op.clear();
         self.cur_op.push_str(op);
@@ -320,6 +343,7 @@ impl World {
     fn new_sock(&mut self, s: Sock, nonblock: bool) -> i32 {
         self.socks.push(s);
         self.nb.push(nonblock || !self.menu.blocking_sleeps);
+        self.need.push(0);
         FD_BASE + (self.socks.len() as i32 - 1)
     }
 
@@ -584,28 +608,36 @@ impl World {
             libc::SYS_connect => match self.sock_idx(fd) {
                 Some(i) => {
                     self.interleave();
-                    self.connect(i)
+                    let r = self.connect(i);
+                    self.note_need(i, r, POLLOUT);
+                    r
                 }
                 None => return self.foreign(nr),
             },
             libc::SYS_accept4 => match self.sock_idx(fd) {
                 Some(i) => {
                     self.interleave();
-                    self.accept4(i, a)
+                    let r = self.accept4(i, a);
+                    self.note_need(i, r, POLLIN);
+                    r
                 }
                 None => return self.foreign(nr),
             },
             libc::SYS_read => match self.sock_idx(fd) {
                 Some(i) => {
                     self.interleave();
-                    self.read(i, a[1] as *mut u8, a[2] as usize)
+                    let r = self.read(i, a[1] as *mut u8, a[2] as usize);
+                    self.note_need(i, r, POLLIN);
+                    r
                 }
                 None => return self.foreign(nr),
             },
             libc::SYS_write => match self.sock_idx(fd) {
                 Some(i) => {
                     self.interleave();
-                    self.write(i, a[1] as *const u8, a[2] as usize)
+                    let r = self.write(i, a[1] as *const u8, a[2] as usize);
+                    self.note_need(i, r, POLLOUT);
+                    r
                 }
                 None => return self.foreign(nr),
             },
@@ -885,6 +917,17 @@ impl World {
         };
         if timeout != Some(0) {
             self.blocking_ppolls += 1;
+        }
+        // the wait must be for the readiness the blocked operation needs, and for nothing in the other direction
+        if let Some(i) = self.sock_idx(fd) {
+            let need = self.need[i];
+            let dir_in = POLLIN | libc::POLLRDNORM | libc::POLLRDBAND | libc::POLLPRI;
+            let dir_out = POLLOUT | libc::POLLWRNORM | libc::POLLWRBAND;
+            let (want, other) = if need == POLLIN { (dir_in, dir_out) } else { (dir_out, dir_in) };
+            if need != 0 && (events & want == 0 || events & other != 0) && self.wrong_events.is_none() {
+                self.wrong_events = Some((self.cur_op.clone(), events, need));
+                self.ev.push(Ev::Note("ppoll waits for events the blocked operation does not need"));
+            }
         }
         let start = self.clock;
         self.interleave();
